@@ -199,7 +199,9 @@ def gen_plant(r, n=3):
 
     out = []
     kinds = ["FuncDefn", "DFG", "TailLoop", "DataflowBlock", "Custom", "Const", "AliasDecl", "AliasDefn",
-             "Call", "LoadFunc", "FuncDecl", "Tag", "ExtOp", "Conditional", "CFG"]
+             "Call", "LoadFunc", "FuncDecl", "Tag", "ExtOp", "Conditional", "CFG",
+             # operations typed by hand and added through the plain graph API (the builders never see them)
+             "MakeTuple", "UnpackTuple", "Noop", "CallIndirect", "LoadConst", "Input", "Output"]
     for _ in range(r.randint(1, n)):
         from vf.props import c05
 
